@@ -205,6 +205,14 @@ class Unit:
         src = extract.Source.load(os.path.join(REPO, file))
         path = it["path"]
         role = it.get("role", "verify")
+        if it.get("optional"):
+            # an item that may legitimately be absent (e.g. a helper introduced by a repair): the contract clauses that
+            # depend on it then fail on their own instead of the unit becoming undecidable
+            try:
+                if kind == "fn":
+                    extract.find_fn(src, path)
+            except extract.LostAnchor:
+                return
         if kind in ("fn", "impl_fn", "trait_fn"):
             if kind == "fn":
                 item = extract.find_fn(src, path)
